@@ -13,7 +13,7 @@ RERECORD_ON_SHRINK = True
 MINIMISE_BUDGET_S = 90.0
 
 TIERS = {
-    'quick': {'runs': 3200, 'budget_s': 75, 'batch': 20},
+    'quick': {'runs': 1400, 'budget_s': 50, 'batch': 8},
     'thorough': {'runs': 60000, 'budget_s': 900, 'batch': 40},
 }
 
